@@ -574,6 +574,24 @@ Bernstein bound per cell with a union bound over cells (rigorous), DKW (rigorous
     ctx.run_prop_par("jackknife", ctx.scale(3_000, 60_000), 16, || jack_strat(2000), check_jackknife);
     ctx.run_prop_par("shuffle", n, 16, || jack_strat(2000), check_shuffle);
     ctx.run_prop_par("shuffle_two", n, 16, || two_strat(2000), check_shuffle_two);
+    // "for every random stream": many seeds at the longest listed length, where an event of probability ~1e-4 per call
+    // (two equal random keys, an index drawn one past the end, …) shows up; the second array runs against the first, and
+    // the special-value class carries NaN, so a tie resolved by comparing the data is visible as well
+    let many = ctx.scale(5_000, 100_000);
+    ctx.run_prop_par(
+        "shuffle_two",
+        many,
+        16,
+        || any::<u64>().prop_map(|seed| TwoCase { a: Data { n: 2000, class: 1, salt: seed | 1 }, b: Data { n: 2000, class: 0, salt: seed >> 1 }, seed }),
+        check_shuffle_two,
+    );
+    ctx.run_prop_par(
+        "shuffle",
+        many,
+        16,
+        || (any::<u64>(), 0u8..2).prop_map(|(seed, k)| JackCase { data: Data { n: 2000, class: [3u8, 2][k as usize], salt: seed | 1 }, seed }),
+        check_shuffle,
+    );
     ctx.run_prop_par("shuffle_two_mismatch", ctx.scale(500, 5_000), 4, mismatch_strat, check_mismatch);
 
     // --- uniformity (parallel statistical driver) -------------------------------------------------
